@@ -21,6 +21,9 @@ def tasks(tier, params):
     out.append(('attr.dup', {'part': 'dup'}))
     for n in (0, 1, 2, 3):
         out.append(('long.%d' % n, {'part': 'long', 'n': n}))
+    for n in (0, 255, 256, 300):
+        out.append(('cs.%d' % n, {'part': 'cs', 'n': n}))
+    out.append(('attr.long', {'part': 'attrlong'}))
     if params.get('part_only') == 'attr':
         out = [o for o in out if o[0].startswith('attr.')]
     return out
@@ -81,6 +84,39 @@ def run_task(prog, tid, params, tier):
         if extra:
             cex.update(extra(m))
         return {'status': 'violation', 'role': role, 'detail': '%s: %s' % (tid, what), 'cex': cex}
+
+    if part in ('cs', 'attrlong'):
+        n = params.get('n', 0)
+
+        def run(I):
+            if part == 'cs':
+                out = []
+                # owned String, &str and &[u8] constructors: over-long input must be refused, never truncated
+                sv = VecV([mk('u8', 97)] * n, True)
+                out.append(('TryFrom<String>', I.do_call(None, '<CharacterString as TryFrom<String>>::try_from', [sv])))
+                out.append(('TryFrom<&str>', I.do_call(None, '<CharacterString as TryFrom<&str>>::try_from', [str_ref(I, [mk('u8', 97)] * n)])))
+                bs = SliceRef(Ref(Cell(Agg('array', [mk('u8', 97)] * n), 'b')), mk('usize', 0), mk('usize', n))
+                out.append(('new', I.call_function(inherent(prog, 'CharacterString', 'new'), [bs], {})))
+                return out
+            # attribute entry of 256 bytes ("k=vvvv..."): TXT::try_from(map) must refuse it
+            key = string_of([mk('u8', 107)])
+            val = Some(string_of([mk('u8', 118)] * 254))
+            return [('map-256', I.call_function(f_from_map, [MapV('HashMap', [(key, val)])], {}))]
+
+        def on_path(res):
+            if res.kind == 'panic':
+                return viol(res, 'panic', 'panic: ' + res.msg)
+            if res.kind != 'return':
+                return None
+            for what, r in res.value:
+                want_ok = (n <= 255) if part == 'cs' else False
+                if (r.var == 'Ok') != want_ok:
+                    return {'status': 'violation', 'role': 'length', 'detail': '%s: %s %s a %d-byte string' % (
+                        tid, what, 'accepts' if r.var == 'Ok' else 'refuses', n if part == 'cs' else 256),
+                        'cex': {'entry': 'txt_cs', 'n': n if part == 'cs' else 256, 'expect': {'any_failure': True}}}
+            okp[0] += 1
+            return None
+        return finish(X.explore(prog, run, on_path, loop_bound=700, stats=stats, timeout_ms=60000))
 
     if part == 'chunk':
         n = params['n']
